@@ -42,6 +42,25 @@ def aggregateSeckeys (r : Nat) (secs : List Nat) : Option Nat :=
   | [] => none
   | s :: rest => some ((rest.foldl (fun acc x => acc + x) s) % r)
 
+/-- Member key after the DKG (`groupNodeInfo.genMinerSignSecKey`): every dealer `d` sends
+    `ShareSeckey(coeffs_d, id)`, the member aggregates what it received. `dealers` lists the
+    dealers' coefficient lists. -/
+def memberKey (r : Nat) (dealers : List (List Nat)) (x : Nat) : Option Nat :=
+  match dealers.mapM (fun cs => shareSeckey r cs x) with
+  | some shares => aggregateSeckeys r shares
+  | none => none
+
+/-- The group secret `Σ_d coeffs_d[0] mod r`. The node never computes it; the harness does (with
+    `AggregateSeckeys`) to obtain the reference signature. -/
+def groupSecret (r : Nat) (dealers : List (List Nat)) : Option Nat :=
+  aggregateSeckeys r (dealers.map (fun cs => cs.headD 0))
+
+/-- `AggregatePubkeys` (`pubkey.go`): `none` (Go `nil`) on empty input, else the first key with the
+    others added one by one. -/
+def aggregatePoints {G : Type} (add : G → G → G) : List G → Option G
+  | [] => none
+  | p :: ps => some (ps.foldl add p)
+
 /-! ### Lagrange coefficients -/
 
 /-- The inner `j` loop of `recoverSignature` for fixed `i`: running `(num, den)`. `j` is the
